@@ -166,13 +166,22 @@ def _run_hist(desc):
     # limits relative to the first reflection so that no list is empty (makerings on an empty list is outside the alphabet)
     dmin = min(O.brute_hkls(cell, sym, 1.0)[0].values())
     limits = tuple(round(dmin * f, 4) for f in (1.23, 1.71, 2.37))
-    ops = [("gethkls", l) for l in limits] + [("makerings", l) for l in limits]
-    tol = 1e-3
+    # makerings three ways: the tolerance given (0.001), left to its documented default (0.001), and a wide one (0.02) as the indexer
+    # passes its ds_tol - the default must stay 0.001 whatever an earlier caller of the same object asked for
+    WIDE = 0.02
+    ops = [("gethkls", l, None) for l in limits] + [("makerings", l, 1e-3) for l in limits] + \
+          [("makerings-default-tol", l, None) for l in (limits[0], limits[2])] + [("makerings", l, WIDE) for l in (limits[0], limits[2])]
     oracle = {}
     for l in limits:
-        for lim in (l, l + tol):
+        for lim in (l, l + 1e-3, l + WIDE):
             w, B = O.brute_hkls(cell, sym, lim)
             oracle[lim] = w
+    fresh_rings = {}
+    for name, l, t in ops:
+        if name != "gethkls":
+            f = uc_mod.unitcell(cell, sym)
+            f.makerings(l, 1e-3 if t is None else t)
+            fresh_rings[(l, 1e-3 if t is None else t)] = [sorted(tuple(int(x) for x in hh) for hh in f.ringhkls[d_]) for d_ in f.ringds]
     for d in range(1, depth + 1):
         for seq in itertools.product(range(len(ops)), repeat=d):
             # built from an array the caller goes on using: the object must own its cell
@@ -183,13 +192,17 @@ def _run_hist(desc):
             names = []
             bad = False
             for oi in seq:
-                name, l = ops[oi]
-                names.append("%s(%g)" % (name, l))
+                name, l, t = ops[oi]
+                names.append("%s(%g%s)" % (name, l, "" if t is None else ", %g" % t))
                 if name == "gethkls":
                     peaks = uc.gethkls(l)
                     lim = l
                 else:
-                    uc.makerings(l, tol)
+                    tol = 1e-3 if t is None else t
+                    if t is None:
+                        uc.makerings(l)
+                    else:
+                        uc.makerings(l, t)
                     peaks = uc.peaks
                     lim = l + tol
                 got = {tuple(int(x) for x in p[1]): p[0] for p in peaks}
@@ -200,11 +213,26 @@ def _run_hist(desc):
                                   "extra": sorted(set(got) - set(want))[:5]})
                     bad = True
                     break
-                if name == "makerings":
-                    inr = sorted(h for d_ in uc.ringds for h in [tuple(int(x) for x in hh) for hh in uc.ringhkls[d_]])
+                if name != "gethkls":
+                    rings = [sorted(tuple(int(x) for x in hh) for hh in uc.ringhkls[d_]) for d_ in uc.ringds]
+                    inr = sorted(h for r_ in rings for h in r_)
                     if inr != sorted(got):
                         sh.violation("history:rings-not-a-partition-after-sequence", {"kind": "hist", "cell": cell, "sym": sym, "history": list(names)}, {})
                         bad = True
+                        break
+                    for r_ in rings:
+                        md = sorted(got[h] for h in r_)
+                        if any(md[i + 1] - md[i] >= tol for i in range(len(md) - 1)):
+                            sh.violation("history:ring-neighbours-differ-by-more-than-the-tolerance-of-this-call",
+                                         {"kind": "hist", "cell": cell, "sym": sym, "history": list(names)}, {"tol": tol, "ring_ds": md[:6]})
+                            bad = True
+                            break
+                    if not bad and rings != fresh_rings[(l, tol)]:
+                        sh.violation("history:rings-differ-from-the-same-call-on-a-fresh-object",
+                                     {"kind": "hist", "cell": cell, "sym": sym, "history": list(names)},
+                                     {"n_rings": len(rings), "n_rings_fresh_object": len(fresh_rings[(l, tol)])})
+                        bad = True
+                    if bad:
                         break
             sh.evaluations += 1
             sh.states += 1
